@@ -356,29 +356,36 @@ class Result:
         return exit_code
 
 
-def proof_obligations(res, prop_mod, extra_targets=None):
+def proof_obligations(res, prop_mods, extra_targets=None):
     """Common K1+T step: regen, build the property's .vo closure, forbidden scan,
-    Print Assumptions.  Returns True when every proof obligation is discharged;
-    otherwise records which one broke (caller runs the search)."""
+    Print Assumptions.  prop_mods: one Props module name or a list of them.
+    Returns (ok, broken): ok when every proof obligation is discharged;
+    otherwise `broken` says which one broke (the caller runs the search)."""
+    if isinstance(prop_mods, str):
+        prop_mods = [prop_mods]
     regen()
-    target = "theories/Props/%s.vo" % prop_mod
-    ok, out = coq_make([target] + (extra_targets or []))
-    broken = None
+    targets = ["theories/Props/%s.vo" % m for m in prop_mods]
+    ok, out = coq_make(targets + (extra_targets or []))
     if not ok:
         broken = first_coq_error(out)
-        res.oblige("build:%s" % target, False, broken)
+        res.oblige("build:%s" % ",".join(targets), False, broken)
         res.notes.append({"broken_build": broken})
         return False, broken
-    res.oblige("build:%s" % target, True)
+    res.oblige("build:%s" % ",".join(targets), True)
     hits = forbidden_scan()
     res.oblige("no-forbidden-constructs", not hits, hits)
-    names = theorem_names(prop_mod + ".v")
-    pa = print_assumptions(prop_mod, names)
     allclosed = True
-    for n in names:
-        c = pa.get(n)
-        okc = c == "closed"
-        allclosed &= okc
-        res.oblige("theorem:%s (Print Assumptions: %s)" % (n, "closed" if okc else c), okc)
-    res.coverage["theorems"] = names
-    return (not hits) and allclosed, None
+    allnames = []
+    for m in prop_mods:
+        names = theorem_names(m + ".v")
+        pa = print_assumptions(m, names)
+        for n in names:
+            c = pa.get(n)
+            okc = c == "closed"
+            allclosed &= okc
+            res.oblige("theorem:%s.%s (Print Assumptions: %s)" % (m, n, "closed" if okc else c), okc)
+        allnames += ["%s.%s" % (m, n) for n in names]
+    res.coverage["theorems"] = allnames
+    if not ((not hits) and allclosed):
+        return False, {"file": "Props", "line": 0, "error": "forbidden construct or open assumption: %s" % (hits,)}
+    return True, None
